@@ -466,3 +466,207 @@ Proof.
     rewrite as_i64_small by lia. destruct neg; [|discriminate]. unfold i64_neg.
     destruct (Z.eqb_spec v I64MIN) as [M|M]; [unfold I64MIN in M; lia|discriminate].
 Qed.
+
+(* ---- formatting ------------------------------------------------------------------------------- *)
+Lemma digit_char_ok n : 0 <= n < 10 ->
+  digit_of (digit_char n) <> None /\ dig (digit_char n) = n /\ (digit_char n = x30 -> n = 0).
+Proof.
+  intros H. assert (C : n = 0 \/ n = 1 \/ n = 2 \/ n = 3 \/ n = 4 \/ n = 5 \/ n = 6 \/ n = 7 \/ n = 8 \/ n = 9) by lia.
+  repeat (destruct C as [->|C]); try subst n; vm_compute; repeat split; congruence.
+Qed.
+
+Lemma udigits_aux_spec f : forall n acc0,
+  0 <= n < 10 ^ Z.of_nat (S f) ->
+  exists D, udigits_aux (S f) n acc0 = D ++ acc0 /\ all_digits D /\ dval D = n /\ D <> [] /\
+            (List.length D <= S f)%nat /\ (forall t, D = x30 :: t -> t = [] /\ n = 0).
+Proof.
+  induction f as [|f IH]; intros n acc0 Hn.
+  - change (Z.of_nat 1) with 1 in Hn. rewrite Z.pow_1_r in Hn.
+    cbn [udigits_aux]. destruct (Z.ltb_spec n 10) as [L|L]; [|lia].
+    rewrite Z.mod_small by lia. destruct (digit_char_ok n ltac:(lia)) as (A & B & C).
+    exists [digit_char n]. repeat split; auto.
+    + repeat constructor. exact A.
+    + rewrite dval_cons, dval_nil, B. cbn [List.length]. change (Z.of_nat 0) with 0. rewrite Z.pow_0_r. lia.
+    + discriminate.
+    + injection H as _ H2. symmetry. exact H2.
+    + injection H as H1 _. auto.
+  - remember (S f) as f1 eqn:Ef. cbn [udigits_aux]. destruct (Z.ltb_spec n 10) as [L|L].
+    + rewrite Z.mod_small by lia. destruct (digit_char_ok n ltac:(lia)) as (A & B & C).
+      exists [digit_char n]. repeat split; auto.
+      * repeat constructor. exact A.
+      * rewrite dval_cons, dval_nil, B. cbn [List.length]. change (Z.of_nat 0) with 0. rewrite Z.pow_0_r. lia.
+      * discriminate.
+      * cbn [List.length]. lia.
+      * injection H as _ H2. symmetry. exact H2.
+      * injection H as H1 _. auto.
+    + assert (Hq : 0 <= n / 10 < 10 ^ Z.of_nat f1).
+      { rewrite pow10_S in Hn. split; [apply Z.div_pos; lia|apply Z.div_lt_upper_bound; lia]. }
+      subst f1. destruct (IH (n / 10) (digit_char (n mod 10) :: acc0) Hq) as (D & E & A & V & NE & Len & Lead).
+      pose proof (Z.mod_pos_bound n 10 ltac:(lia)) as Hm.
+      destruct (digit_char_ok (n mod 10) Hm) as (A1 & B1 & C1).
+      exists (D ++ [digit_char (n mod 10)]). repeat split.
+      * rewrite E, <- app_assoc. reflexivity.
+      * apply all_digits_app. split; [exact A|]. repeat constructor. exact A1.
+      * rewrite dval_app, V, dval_cons, dval_nil, B1. cbn [List.length]. change (Z.of_nat 0) with 0.
+        change (Z.of_nat 1) with 1. rewrite Z.pow_0_r, Z.pow_1_r. pose proof (Z.div_mod n 10 ltac:(lia)). lia.
+      * destruct D; discriminate.
+      * rewrite app_length. cbn [List.length]. lia.
+      * destruct D as [|c0 D']; [congruence|]. cbn [app] in H. injection H as -> _.
+        destruct (Lead D' eq_refl) as [_ Z0]. assert (n / 10 >= 1) by (apply Z.le_ge, Z.div_le_lower_bound; lia). lia.
+      * destruct D as [|c0 D']; [congruence|]. cbn [app] in H. injection H as -> _.
+        destruct (Lead D' eq_refl) as [_ Z0]. assert (n / 10 >= 1) by (apply Z.le_ge, Z.div_le_lower_bound; lia). lia.
+Qed.
+
+Lemma udigits_spec n : 0 <= n <= U64MAX ->
+  all_digits (udigits n) /\ dval (udigits n) = n /\ udigits n <> [] /\ (List.length (udigits n) <= 20)%nat /\
+  (forall t, udigits n = x30 :: t -> t = [] /\ n = 0).
+Proof.
+  intros H. unfold udigits.
+  assert (Hn : 0 <= n < 10 ^ Z.of_nat 20) by (unfold U64MAX in H; change (10 ^ Z.of_nat 20) with 100000000000000000000; lia).
+  destruct (udigits_aux_spec 19 n [] Hn) as (D & E & A & V & NE & Len & Lead).
+  rewrite app_nil_r in E. rewrite E. auto.
+Qed.
+
+Lemma fmt_unfold_frac p neg d : (0 < decimals d)%nat ->
+  fmt_piconero_in p neg d =
+    let nb := decimals d in
+    let real := zpad nb (udigits p) in
+    if Nat.ltb (List.length real) nb then APanic
+    else if Nat.eqb (List.length real) nb then AOk (sign_str neg ++ [x30; x2e] ++ skipn (List.length real - nb) real)
+    else AOk (sign_str neg ++ firstn (List.length real - nb) real ++ [x2e] ++ skipn (List.length real - nb) real).
+Proof. intros H. destruct d; try reflexivity. cbn [decimals] in H. lia. Qed.
+
+Lemma fmt_unfold_pico p neg : fmt_piconero_in p neg Piconero = AOk (sign_str neg ++ udigits p).
+Proof. reflexivity. Qed.
+
+Lemma all_digits_zeros k : all_digits (repeat zero_char k).
+Proof. induction k; cbn [repeat]; [apply all_digits_nil|]. apply all_digits_cons. split; [reflexivity|assumption]. Qed.
+Lemma dval_zeros k ds : dval (repeat zero_char k ++ ds) = dval ds.
+Proof.
+  induction k as [|k IH]; cbn [repeat app]; [reflexivity|]. rewrite dval_cons, IH.
+  change (dig zero_char) with 0. lia.
+Qed.
+
+(* what the formatter writes: sign, canonical integer part, and exactly `decimals d` decimals *)
+Lemma fmt_spec p neg d : 0 <= p <= U64MAX ->
+  exists ip fp,
+    fmt_piconero_in p neg d = AOk (sign_str neg ++ ip ++ match decimals d with O => [] | S _ => x2e :: fp end) /\
+    canonical_int ip /\ all_digits fp /\ List.length fp = decimals d /\
+    dval ip * 10 ^ Z.of_nat (decimals d) + dval fp = p /\ (List.length ip <= 20)%nat.
+Proof.
+  intros Hp. destruct (udigits_spec p Hp) as (A & V & NE & Len & Lead).
+  destruct (decimals d) as [|nb'] eqn:Ed.
+  - assert (d = Piconero) by (destruct d; cbn [decimals] in Ed; congruence). subst d.
+    exists (udigits p), []. rewrite fmt_unfold_pico, app_nil_r. repeat split; auto using all_digits_nil.
+    + intros t E. now apply (Lead t).
+    + rewrite dval_nil. change (Z.of_nat 0) with 0. rewrite Z.pow_0_r. lia.
+  - rewrite fmt_unfold_frac by lia. rewrite Ed. set (nb := S nb') in *. cbv zeta. unfold zpad.
+    destruct (Nat.le_gt_cases (List.length (udigits p)) nb) as [Le|Gt].
+    + (* short number: "0." ++ zero-padded digits *)
+      set (real := repeat zero_char (nb - List.length (udigits p)) ++ udigits p).
+      assert (Lr : List.length real = nb) by (unfold real; rewrite app_length, repeat_length; lia).
+      rewrite Lr. rewrite (proj2 (Nat.ltb_ge nb nb)) by lia. rewrite Nat.eqb_refl, Nat.sub_diag. cbn [skipn].
+      exists [x30], real. repeat split; auto.
+      * repeat constructor. discriminate.
+      * discriminate.
+      * intros t E. injection E as <-. reflexivity.
+      * unfold real. apply all_digits_app. split; [apply all_digits_zeros|exact A].
+      * unfold real. rewrite dval_zeros, V. change (dval [x30]) with 0. lia.
+      * cbn [List.length]. lia.
+    + (* long number: split the digits *)
+      replace (nb - List.length (udigits p))%nat with O by lia. cbn [repeat app].
+      set (ds := udigits p) in *. set (k := (List.length ds - nb)%nat).
+      rewrite (proj2 (Nat.ltb_ge (List.length ds) nb)) by lia.
+      rewrite (proj2 (Nat.eqb_neq (List.length ds) nb)) by lia.
+      exists (firstn k ds), (skipn k ds).
+      assert (Es : ds = firstn k ds ++ skipn k ds) by (symmetry; apply firstn_skipn).
+      assert (Lf : List.length (skipn k ds) = nb) by (rewrite skipn_length; unfold k; lia).
+      assert (Li : List.length (firstn k ds) = k) by (rewrite firstn_length; unfold k; lia).
+      rewrite Es in A. apply all_digits_app in A. destruct A as [A1 A2].
+      repeat split; auto.
+      * intros E. rewrite E in Li. cbn [List.length] in Li. unfold k in Li. lia.
+      * intros t E. rewrite E in Es. cbn [app] in Es. destruct (Lead _ Es) as [Z1 _].
+        apply app_eq_nil in Z1. tauto.
+      * rewrite <- V. rewrite Es at 3. rewrite dval_app, Lf. reflexivity.
+      * rewrite Li. unfold k. lia.
+Qed.
+
+Lemma decimals_le_12 d : (decimals d <= 12)%nat.
+Proof. destruct d; cbn [decimals]; lia. Qed.
+
+Definition no_space (s : bytes) : Prop := Forall (fun c => is_space c = false) s.
+Lemma digits_no_space ds : all_digits ds -> no_space ds.
+Proof.
+  unfold all_digits, no_space. intros H. eapply Forall_impl; [|exact H]. intros c Hc.
+  apply is_digit_iff in Hc. now apply digit_not_special in Hc.
+Qed.
+
+(* the text written by the formatter is well-formed and denotes the amount it was given *)
+Lemma fmt_denotes p neg d : 0 <= p <= U64MAX ->
+  exists s, fmt_piconero_in p neg d = AOk s /\
+            denotes (decimals d) s ((if neg then -1 else 1) * p) /\
+            (neg = false -> ~ has_sign s) /\ no_space s /\
+            expansion (decimals d) ((if neg then -1 else 1) * p) (sign_str ((if neg then -1 else 1) * p <? 0) ++
+                                                                   skipn (List.length (sign_str neg)) s).
+Proof.
+  intros Hp. destruct (fmt_spec p neg d Hp) as (ip & fp & E & (CA & CN & CL) & A & L & V & Li).
+  eexists. split; [exact E|].
+  assert (SH : decimal_shape (sign_str neg ++ ip ++ match decimals d with O => [] | S _ => x2e :: fp end) neg ip fp).
+  { destruct (decimals d) eqn:Ed.
+    - destruct fp; [|discriminate L]. rewrite app_nil_r. now apply shape_int.
+    - apply shape_point. }
+  pose proof (decimals_le_12 d) as D12.
+  split; [|split; [|split]].
+  - exists neg, ip, fp. repeat split; auto; try lia.
+    + rewrite !app_length. destruct neg, (decimals d); cbn [sign_str List.length]; lia.
+    + rewrite L, Nat.sub_diag. change (Z.of_nat 0) with 0. rewrite Z.pow_0_r. f_equal. lia.
+  - intros ->. eapply shape_unsigned_no_sign; eauto.
+  - unfold no_space. rewrite !Forall_app. split; [destruct neg; repeat constructor|].
+    split; [now apply digits_no_space|]. destruct (decimals d); [constructor|].
+    constructor; [reflexivity|now apply digits_no_space].
+  - rewrite skipn_app, skipn_all, Nat.sub_diag. cbn [app skipn].
+    exists ip, fp. repeat split; auto. pose proof (Z.abs_spec ((if neg then -1 else 1) * p)). destruct neg; lia.
+Qed.
+
+Lemma signed_picos_abs a : I64MIN <= a <= I64MAX -> signed_picos a = AOk (Z.abs a).
+Proof.
+  intros H. unfold signed_picos, i64_checked_abs. destruct (Z.eqb_spec a I64MIN) as [->|N]; [reflexivity|].
+  unfold as_u64. unfold I64MIN, I64MAX in *. rewrite Z.mod_small by lia. reflexivity.
+Qed.
+
+(* ---- formatter exactness ---------------------------------------------------------------------- *)
+Theorem amount_format_exact a d : 0 <= a <= 2 ^ 64 - 1 ->
+  exists s, amount_to_string_in a d = AOk s /\ expansion (decimals d) a s.
+Proof.
+  intros H. unfold amount_to_string_in.
+  destruct (fmt_denotes a false d H) as (s & E & _ & _ & _ & X). exists s. split; [exact E|].
+  replace (1 * a) with a in X by lia. destruct (Z.ltb_spec a 0); [lia|]. exact X.
+Qed.
+
+Theorem signed_format_exact a d : - 2 ^ 63 <= a <= 2 ^ 63 - 1 ->
+  exists s, signed_to_string_in a d = AOk s /\ expansion (decimals d) a s.
+Proof.
+  intros H. unfold signed_to_string_in. rewrite signed_picos_abs by (unfold I64MIN, I64MAX; lia). cbn [abind].
+  assert (Hp : 0 <= Z.abs a <= U64MAX) by (unfold U64MAX; lia).
+  destruct (fmt_spec (Z.abs a) (a <? 0) d Hp) as (ip & fp & E & C & A & L & V & Li).
+  eexists. split; [exact E|]. exists ip, fp. repeat split; auto; apply C.
+Qed.
+
+(* ---- parse (format a) = a --------------------------------------------------------------------- *)
+Theorem amount_roundtrip a d : 0 <= a <= 2 ^ 63 - 1 ->
+  exists s, amount_to_string_in a d = AOk s /\ amount_from_str_in s d = AOk a.
+Proof.
+  intros H. unfold amount_to_string_in.
+  destruct (fmt_denotes a false d ltac:(unfold U64MAX; lia)) as (s & E & Dn & NS & _ & _). exists s. split; [exact E|].
+  apply amount_from_str_in_spec. replace (1 * a) with a in Dn by lia. repeat split; auto. lia.
+Qed.
+
+Theorem signed_roundtrip a d : - (2 ^ 63 - 1) <= a <= 2 ^ 63 - 1 ->
+  exists s, signed_to_string_in a d = AOk s /\ signed_from_str_in s d = AOk a.
+Proof.
+  intros H. unfold signed_to_string_in. rewrite signed_picos_abs by (unfold I64MIN, I64MAX; lia). cbn [abind].
+  destruct (fmt_denotes (Z.abs a) (a <? 0) d ltac:(unfold U64MAX; lia)) as (s & E & Dn & _ & _ & _).
+  exists s. split; [exact E|]. apply signed_from_str_in_spec. split; [|lia].
+  assert (Ea : (if a <? 0 then -1 else 1) * Z.abs a = a) by (destruct (Z.ltb_spec a 0); lia).
+  rewrite Ea in Dn. exact Dn.
+Qed.
